@@ -570,6 +570,22 @@ def r8_sort(src, ctx):
         return f'{fn}(&mut {recv});'
     src = re.sub(r'(\w[\w.]*)\.sort_by\(\|(\w+),\s*(\w+)\|\s*\2\.([\w.]+)\.cmp\(&\3\.([\w.]+)\)\);', rep_sort_by, src)
 
+    def rep_sort_unstable_by(m):
+        recv, a, b, ka, kb = m.group(1), m.group(2), m.group(3), m.group(4), m.group(5)
+        if ka != kb: raise Unsupported('sort_unstable_by comparator with different keys')
+        fn = 'verif_sort_unstable_by_' + re.sub(r'\W+', '_', ka).strip('_')
+        ctx.log.append(('R8', m.group(0), f'{fn}(&mut {recv});'))
+        return f'{fn}(&mut {recv});'
+    src = re.sub(r'(\w[\w.]*)\.sort_unstable_by\(\|(\w+),\s*(\w+)\|\s*\2\.([\w.]+)\.cmp\(&\3\.([\w.]+)\)\);', rep_sort_unstable_by, src)
+
+    def rep_sort_unstable_key(m):
+        recv, p, key = m.group(1), m.group(2), m.group(3)
+        key = re.sub(r'^%s\.' % re.escape(p), '', key.strip())
+        fn = 'verif_sort_unstable_by_key_' + re.sub(r'\W+', '_', key).strip('_')
+        ctx.log.append(('R8', m.group(0), f'{fn}(&mut {recv});'))
+        return f'{fn}(&mut {recv});'
+    src = re.sub(r'(\w[\w.]*)\.sort_unstable_by_key\(\|(\w+)\|\s*([^;{}]*?)\);', rep_sort_unstable_key, src)
+
     def rep_sort_key(m):
         recv, p, key = m.group(1), m.group(2), m.group(3)
         key = re.sub(r'^%s\.' % re.escape(p), '', key.strip())
